@@ -30,7 +30,7 @@ pub struct CfgGene {
 #[derive(Clone, Debug, Serialize, Deserialize, PartialEq, Eq, Hash)]
 pub struct VGene {
     pub ddts: u32,
-    pub cts: i32,
+    pub cts: i64,
     pub key: bool,
     pub size: u16,
     pub shape: u8,
@@ -337,7 +337,7 @@ pub fn lower(c: &ValidCase) -> Lowered {
             let t = ticks_exact(v);
             (v, v, t.tick, t.tick, t.tie)
         } else {
-            let pts_tick = if g.cts >= 0 { dts + g.cts as u64 } else { dts.saturating_sub((-(g.cts as i64)) as u64) };
+            let pts_tick = if g.cts >= 0 { dts + g.cts as u64 } else { dts.saturating_sub((-g.cts) as u64) };
             let ds = secs(dts, g.jit);
             let ps = if pts_tick == dts { ds } else { secs(pts_tick, g.jit) };
             (ds, ps, dts, pts_tick, false)
@@ -744,9 +744,9 @@ pub fn cfg_strategy() -> impl Strategy<Value = CfgGene> {
 
 pub fn vgene_strategy(reorder: bool) -> impl Strategy<Value = VGene> {
     let cts = if reorder {
-        prop_oneof![2 => Just(0i32), 3 => 0i32..20000, 2 => -20000i32..0, 1 => any::<i32>().prop_map(|v| v / 4)].boxed()
+        prop_oneof![2 => Just(0i64), 3 => 0i64..20000, 2 => -20000i64..0, 1 => any::<i32>().prop_map(|v| (v / 4) as i64)].boxed()
     } else {
-        Just(0i32).boxed()
+        Just(0i64).boxed()
     };
     (ddts_strategy(), cts, prop::bool::weighted(0.2), size_strategy(), any::<u8>(), -49i8..=49)
         .prop_map(|(ddts, cts, key, size, shape, jit)| VGene { ddts, cts, key, size, shape, jit })
